@@ -94,15 +94,16 @@ type ConcInfo struct {
 
 // Obs is one observation outside the trace (NDJSON).
 type Obs struct {
-	Scenario string   `json:"scenario"`
-	Step     int      `json:"step"`
-	Drv      string   `json:"drv,omitempty"`
-	Kind     string   `json:"kind"` // fidelity | disagree | panic | invalid-input
-	Detail   string   `json:"detail"`
-	Fields   []string `json:"fields,omitempty"`
-	Op       string   `json:"op,omitempty"`
-	CName    string   `json:"cname,omitempty"`
-	Class    string   `json:"class,omitempty"`
-	BigInt   bool     `json:"bigint,omitempty"`
-	Dissent  []string `json:"dissent,omitempty"` // drivers whose abstract result differs from the majority
+	Scenario string     `json:"scenario"`
+	Step     int        `json:"step"`
+	Drv      string     `json:"drv,omitempty"`
+	Kind     string     `json:"kind"` // fidelity | disagree | panic | invalid-input
+	Detail   string     `json:"detail"`
+	Fields   []string   `json:"fields,omitempty"`
+	Op       string     `json:"op,omitempty"`
+	CName    string     `json:"cname,omitempty"`
+	Class    string     `json:"class,omitempty"`
+	BigInt   bool       `json:"bigint,omitempty"`
+	Dissent  []string   `json:"dissent,omitempty"` // drivers whose abstract result differs from the majority
+	Groups   [][]string `json:"groups,omitempty"`  // the drivers partitioned by equal abstract result
 }
